@@ -135,7 +135,7 @@ def nontrivial(e):
 def binding_demo(ctx, evs):
     """Corrupt one real tree per aspect; TLC must reject exactly those events."""
     pick = [e for e in evs if len(e['nodes']) >= 5 and not e['nodes'][0]['err'] and any(n['kind'] == 'gap' and n['len'] > 1 for n in e['nodes'])
-            and any(n['kind'] == 'array' and len(n['kids']) >= 2 for n in e['nodes'])]
+            and any(n['kind'] == 'array' and len(n['kids']) >= 2 for n in e['nodes']) and any(n['kind'] == 'leaf' and n['len'] > 0 for n in e['nodes'])]
     if len(pick) < 4:
         raise Inconclusive('no suitable tree for the binding demo')
     good = pick[0]
